@@ -3,6 +3,7 @@ import TexelVerif.Drv.Chess
 import TexelVerif.Drv.Uci
 import TexelVerif.Drv.Mate
 import TexelVerif.Drv.NN
+import TexelVerif.Drv.Time
 /-! Line-protocol driver: one operation per stdin line, one canonical reply line.
     Imports model files only (no proofs, no Mathlib), so it links as a `lean_exe`. -/
 
@@ -18,6 +19,7 @@ def dispatch (st : DrvState) (line : String) : DrvState × String :=
   | "uci" :: args => (st, Drv.Uci.step args)
   | "mate" :: args => (st, Drv.Mate.step args)
   | "nn" :: args => let (t, o) := Drv.NN.step st.nn args; ({ st with nn := t }, o)
+  | "tm" :: args => (st, Drv.Time.step args)
   | _ => (st, "bad-op")
 
 partial def loop (h : IO.FS.Stream) (out : IO.FS.Stream) (st : DrvState) : IO Unit := do
